@@ -53,8 +53,8 @@ impl Property for C02 {
     }
     fn plan(&self, suite: SuiteId, tier: Tier) -> Vec<(u32, u32)> {
         let per = match (tier, suite.slow()) {
-            (Tier::Quick, false) => 30,
-            (Tier::Quick, true) => 8,
+            (Tier::Quick, false) => 60,
+            (Tier::Quick, true) => 12,
             (Tier::Thorough, false) => 500,
             (Tier::Thorough, true) => 100,
         };
